@@ -12,6 +12,7 @@ use std::io::BufRead;
 use std::sync::atomic::{AtomicI64, Ordering::SeqCst};
 use std::sync::Arc;
 
+mod acro;
 mod alloc;
 mod casts;
 mod consume;
@@ -60,6 +61,7 @@ fn main() {
             101 => shapes::run(&hdr[1..], &ops, &mut mon),
             102 => generic::run(&hdr[1..], &ops, &mut mon),
             107 => consume::run(&hdr[1..], &ops, &mut mon),
+            109 => acro::run(&hdr[1..], &ops, &mut mon),
             104 => fwd::run(&hdr[1..], &ops, &mut mon),
             105 => ext::run(&hdr[1..], &ops, &mut mon),
             106 => life::run(&hdr[1..], &ops, &mut mon),
